@@ -77,6 +77,15 @@ func main() {
 			})
 		}
 
+		// Runs under non-symmetric preorders (its doc asks only for reflexive + transitive)
+		batched(r, "runs-preorder", nSeq(len(divDomain), 6), 512, workers, runsPreorderSmall)
+		batched(r, "runs-prefix", nSeq(len(prefDomain), 6), 512, workers, runsPrefixSmall)
+		r.Cases("runs-preorder-large", r.Scale(60, 1500), workers, func(c *vkit.Case) {
+			x := newCx(c, false)
+			runsPreorderLarge(x, c.Rand)
+			x.flush()
+		})
+		r.Floor("Runs under a preorder: run ends although its head is related to the next item", r.Table("runs", "preorder: run ends although its head is related to the next item"), 1)
 		r.Cases("xsort-small", nSmall(L), workers, func(c *vkit.Case) {
 			x := newCx(c, true)
 			xsortSmall(x, smallSlice(c.Index))
